@@ -451,14 +451,14 @@ def run_slice(spec, res, only=None, tmp=None, tid=0, collect=None):
             if collect is not None:
                 collect[cd] = t
             # ---- names and hashes
-            ok, nm = attempt(res, f"C15|name|{p[0]}", ref_name(p), rp, lambda: t.name)
-            ok2, hv = attempt(res, f"C15|hash|{p[0]}", ref_name(p), rp, lambda: (hash(t), t.hash_int(), t.hash_b64()))
+            rn = ref_name(p)
+            ok, nm = attempt(res, f"C15|name|{p[0]}", rn, rp, lambda: t.name)
+            ok2, hv = attempt(res, f"C15|hash|{p[0]}", rn, rp, lambda: (hash(t), t.hash_int(), t.hash_b64()))
             if not (ok and ok2):
                 continue
             if not isinstance(nm, str) or not isinstance(hv[0], int):
-                res.fail(f"C15|name-or-hash|{p[0]}|wrong type", f"name={nm!r} hash={hv[0]!r} for {ref_name(p)}", rp)
+                res.fail(f"C15|name-or-hash|{p[0]}|wrong type", f"name={nm!r} hash={hv[0]!r} for {rn}", rp)
                 continue
-            rn = ref_name(p)
             n_name_ref += nm == rn
             n_hash_ref += hv == ref_hashes(nm)
             for label, store, val in (("name", names, nm), ("hash", h61s, hv[0]), ("hash_b64", b64s, hv[2])):
@@ -807,8 +807,9 @@ def box_spec(i, free, level):
     return dict(pins=pins, level=level, scope=f"box:{i}")
 
 
-def census_specs(level, ka, kp):
-    return [dict(pins=dict(adj=dict(mod=[ka, a]), path=dict(mod=[kp, b])), level=level, scope="census")
+def census_specs(level, ka, kp, load_diagonal=False):
+    """partition of the whole space; with load_diagonal the slices a == b (about 1/12 of the space) also go through save/load"""
+    return [dict(pins=dict(adj=dict(mod=[ka, a]), path=dict(mod=[kp, b])), level=S_LOAD if (load_diagonal and a == b) else level, scope="census")
             for a in range(ka) for b in range(kp)]
 
 
@@ -824,7 +825,7 @@ def task_list(tier):
     specs += [box_spec(i, free, S_LOAD if (i < 6 or not quick) else S_NAMES) for i, free in enumerate(BOXES)]
     if not quick:
         specs += [box_spec(i + 8, free, S_ZANJ) for i, free in enumerate(BOXES[:3])]
-    specs += census_specs(S_STRUCT if quick else S_LOAD, 12, 6)
+    specs += census_specs(S_STRUCT if quick else S_NAMES, 12, 6, load_diagonal=not quick)
     tasks = [dict(kind="slice", spec=s) for s in specs]
     tasks += [dict(kind="elements", families=[f]) for f in ELEMENT_FAMILIES]
     tasks += [dict(kind="legacy")]
@@ -909,7 +910,7 @@ def run(ctx):
         predicted_sizes=sizes,
         full_space_census=dict(slices=72, partition="crc32(params) of adjacency-list tokenizer mod 12 x path tokenizer mod 6",
                                tokenizers_enumerated=census, complete=census == sizes["tokenizers"],
-                               judged="configuration multiset == reference product" + ("" if ctx.quick else "; names, hashes, equal copy, legacy, serialize/load")),
+                               judged="configuration multiset == reference product" + ("" if ctx.quick else "; names, hashes, equal copy, legacy on all; serialize/load on the 6 diagonal slices")),
         slices=dict(stars=sum(1 for t in tasks if t["kind"] == "slice" and t["spec"]["scope"].startswith("star")),
                     boxes=sum(1 for t in tasks if t["kind"] == "slice" and t["spec"]["scope"].startswith("box")), census=72),
         hash_seeds=list(SEEDS),
